@@ -33,6 +33,7 @@ func main() {
 		jsonO  = flag.Bool("json", false, "print obligations as JSON (used by the variant sweep)")
 	)
 	extra := flag.String("extra", "", "JSON object merged into the evidence coverage (results of the variant sweep)")
+	dumpFields := flag.Bool("dump-fields", false, "print the fields of the module's struct types (the pinned table of inline.go) and exit")
 	dumpFn := flag.Bool("dump-funcs", false, "print the names of the library functions (the pinned table of inline.go) and exit")
 	genV := flag.String("gen-variants", "", "write single-edit variants of the library sources of -repo into this directory and exit")
 	sweepDir := flag.String("sweep", "", "analyse every variant directory under this directory in-process (overlay on -repo); with -p")
@@ -85,6 +86,12 @@ func main() {
 	}
 	start := time.Now()
 	w, err := loadWorld(*repo, *tier)
+	if *dumpFields && err == nil {
+		for _, n := range w.libStructFields() {
+			fmt.Println(n)
+		}
+		return
+	}
 	if *dumpFn && err == nil {
 		for _, n := range w.libFuncNames() {
 			fmt.Println(n)
